@@ -3,11 +3,16 @@
 use std::fs::File;
 use std::io::BufRead;
 use std::io::BufReader;
+#[cfg(windows)]
 use std::ops::Add;
+#[cfg(windows)]
 use std::ops::Index;
 use std::path::Path;
+#[cfg(windows)]
 use std::sync::LazyLock;
+#[cfg(windows)]
 use crate::util::error_exit;
+#[cfg(windows)]
 use regex::Captures;
 use regex::Error;
 use regex::Regex;
@@ -165,6 +170,7 @@ fn convert_hgignore_pattern(
     }
 }
 
+#[cfg(windows)]
 static HG_CONVERT_REPLACE_REGEX: LazyLock<Regex> = LazyLock::new(|| {
     Regex::new("(\\*\\*|\\?|\\.|\\*)").unwrap()
 });
@@ -172,31 +178,33 @@ static HG_CONVERT_REPLACE_REGEX: LazyLock<Regex> = LazyLock::new(|| {
 fn convert_hgignore_glob(glob: &str, file_path: &Path) -> Result<Regex, Error> {
     #[cfg(not(windows))]
     {
-        let mut pattern = HG_CONVERT_REPLACE_REGEX
-            .replace_all(&glob, |c: &Captures| {
-                match c.index(0) {
-                    "**" => ".*",
-                    "." => "\\.",
-                    "*" => "[^/]*",
-                    "?" => "[^/]+",
-                    "[" => "\\[",
-                    "]" => "\\]",
-                    "(" => "\\(",
-                    ")" => "\\)",
-                    "^" => "\\^",
-                    "$" => "\\$",
-                    _ => error_exit(".hgignore", "Error parsing pattern"),
+        // hgignore(5): a glob is not rooted, it matches at any directory level; a matching
+        // directory hides everything below it; every character but the wildcards is literal
+        let chars: Vec<char> = glob.chars().collect();
+        let mut pattern = String::new();
+        let mut i = 0;
+        while i < chars.len() {
+            match chars[i] {
+                '*' if chars.get(i + 1) == Some(&'*') && chars.get(i + 2) == Some(&'/') => {
+                    pattern.push_str("(?:.*/)?");
+                    i += 2;
                 }
-                .to_string()
-            })
-            .to_string();
+                '*' if chars.get(i + 1) == Some(&'*') => {
+                    pattern.push_str(".*");
+                    i += 1;
+                }
+                '*' => pattern.push_str("[^/]*"),
+                '?' => pattern.push('.'),
+                c => pattern.push_str(&regex::escape(&c.to_string())),
+            }
+            i += 1;
+        }
 
-        pattern = file_path
-            .to_string_lossy()
-            .to_string()
-            .replace("\\", "\\\\")
-            .add("/([^/]+/)*")
-            .add(&pattern);
+        let pattern = format!(
+            "^{}/(?:.*/)?{}(?:/|$)",
+            regex::escape(&file_path.to_string_lossy()),
+            pattern
+        );
 
         Regex::new(&pattern)
     }
@@ -236,16 +244,13 @@ fn convert_hgignore_glob(glob: &str, file_path: &Path) -> Result<Regex, Error> {
 fn convert_hgignore_regexp(regexp: &str, file_path: &Path) -> Result<Regex, Error> {
     #[cfg(not(windows))]
     {
-        let mut pattern = file_path.to_string_lossy().to_string();
-        if !regexp.starts_with("^") {
-            pattern = pattern.add("/([^/]+/)*");
-        }
-
-        if !regexp.starts_with("^") {
-            pattern = pattern.add(".*");
-        }
-
-        pattern = pattern.add(&regexp.trim_start_matches("^"));
+        // hgignore(5): a regexp is matched against the path relative to the repository root
+        // and is only rooted there when it starts with ^
+        let root = regex::escape(&file_path.to_string_lossy());
+        let pattern = match regexp.strip_prefix('^') {
+            Some(rooted) => format!("^{}/{}", root, rooted),
+            None => format!("^{}/.*{}", root, regexp),
+        };
 
         Regex::new(&pattern)
     }
